@@ -168,7 +168,7 @@ func genScenario(r *rand.Rand, i int) []Step {
 		// recovers is less than the interest accrued (the deepest kind of shortfall: Repay books everything as interest, principal
 		// and part of the interest stay owed); a second borrower opens afterwards and everybody is refreshed
 		return []Step{{"a": "levOpen", "u": u, "p": float64(1), "sz": pick(r, "s1", "1000000"), "lev": pick(r, "5", "9")}, blk(5),
-			{"a": "levOpen", "u": v, "p": float64(1), "sz": "s1", "lev": "2"}, blk(5), blk(pick(r, 299592000, 378432000, 473040000)),
+			{"a": "levOpen", "u": v, "p": float64(1), "sz": "s1", "lev": "2"}, blk(5), blk(pick(r, 299592000, 340000000, 378432000)),
 			{"a": "feedAll"}, blk(5), {"a": "feedAll"}, blk(5), {"a": "levClosePositions", "u": "bot", "exact": true, "liq": []any{[]any{u, float64(1)}, []any{v, float64(2)}}, "sl": []any{}}, blk(5),
 			{"a": "levOpen", "u": "u3", "p": float64(1), "sz": "s1", "lev": "3"}, {"a": "feedAll"}, blk(5), {"a": "unbond", "u": "u4", "frac": "third"}, {"a": "feedAll"}, blk(5)}
 	case 21: // the market moves against a 5x position until its health is at or just below the safety factor; nobody liquidates it and
